@@ -1,5 +1,5 @@
 (* C05 — Offers are held, leases last as long as advertised, addresses are stable.  Statements only. *)
-From PSA Require Import model.Bytes model.Clients model.Ipdb model.Dhcp spec.SpecTable spec.SpecIpdb model.Server
+From PSA Require Import gen.GoFacts model.Bytes model.Clients model.Ipdb model.Dhcp spec.SpecTable spec.SpecIpdb model.Server
   proofs.TableProofs proofs.LeaseProofs proofs.ServerProofs.
 Open Scope N_scope.
 
@@ -55,6 +55,26 @@ Theorem C05_expired_reclaimed : forall now t p e k,
   nth_error t p = Some e -> e_perm e = false -> (e_until e < now)%Z -> find_live now k t 0 <> Some p.
 Proof. exact expired_invisible. Qed.
 Print Assumptions C05_expired_reclaimed.
+
+(* (ii) on the wire-level acceptor: a round accepted with a single reply that is not the NAK is the ACK for the client's own
+   binding, and the table afterwards holds that address for that client until the instant of the ACK plus the
+   configured lease - the duration whose whole seconds the ACK advertises (C07).  This is the model side of the monitor
+   clause ack_reserved, which reads the same fact off the implementation's table listing after every ACK. *)
+Theorem C05_acknowledged_is_reserved : forall c t r src dst m o t' f,
+  unique_live (r_t r) t ->
+  accept_request c t r src dst m o = RAcc t' -> r_outs r = [f] -> frame_eqb f (reply_nak c m) = false ->
+  exists lease n, bound_ip (r_t r) (get_duid c (d_chaddr m) (o_cid o)) t = Some lease /\
+    frame_eqb f (reply_lease c GoFacts.gf_dhcpmsg_MsgTypeAck m lease) = true /\ to_uip (c_db c) (Some lease) = Some n /\
+    exists p e, nth_error t' p = Some e /\ e_ip e = n /\ e_duid e = get_duid c (d_chaddr m) (o_cid o) /\
+                e_until e = (of_t f + c_lease c)%Z.
+Proof. exact accepted_ack_is_reserved. Qed.
+Print Assumptions C05_acknowledged_is_reserved.
+
+Theorem C05_update_reserves : forall x now ip d ttl t t' n, unique_live now t -> to_uip x ip = Some n ->
+  t_update_client x now ip d ttl t = (true, t') ->
+  exists p e, nth_error t' p = Some e /\ e_ip e = n /\ e_duid e = d /\ e_until e = (now + ttl)%Z.
+Proof. exact update_reserves. Qed.
+Print Assumptions C05_update_reserves.
 
 Example C05_nonvacuous :
   let x := {| net_from := 10; net_to := 20; dyn_from := 12; dyn_to := 13; st := empty_store |} in
